@@ -77,4 +77,12 @@ CHECKS = {
         "Sampling is the right level: parameter sets and optimisation paths are unbounded.",
    note="Trusted base: math.exp/log, the case description as the declared truth. 4-ulp latitude for log-transformed parameters on a bound; Jacobian columns below finite-difference noise are skipped. F19 (exp underflow to 0) attributed only for recorded x < -744.",
    technique="runtime monitoring: icontract postconditions + per-evaluation recorder on the live optimiser state during real optimisations"),
+ "C15": dict(category="fault_enumeration",
+   text="Exhaustive over k = 1..N (every group evaluation and every megacomplex matrix evaluation of the fault-free run, Jacobian points included) x 2 schemes x "
+        "3 methods x verbose x raise_exception x stdout redirection x 4 exception classes, plus NaN/inf matrices, plus source-free sys.monitoring LINE failpoints at "
+        "every executed line of 14 optimiser/provider functions at evaluations 1, 2 and a middle one (all lines thorough; a rotating quarter quick), plus every "
+        "invalid-scheme kind; each outcome is judged against the statement's table with observers for stdout identity, scheme snapshot, warnings, the set of "
+        "successfully evaluated parameter vectors and the C03 dataset identities. The fault space of a run is finite, so enumeration is the right level.",
+   note="Trusted base: the probe's bookkeeping of completed evaluations. Faults striking while the Result is built are known finding F20 (attributed by phase + identity of the escaping exception).",
+   technique="runtime monitoring with fault injection: function-boundary failpoints enumerated over all evaluations + sys.monitoring LINE failpoints; outcome-table oracle"),
 }
